@@ -88,6 +88,14 @@ def run(ctx):
                 I1 = teneva.func_sum(A, a, b)
                 Iex = float(Fraction(row['ints'][bi][0], row['ints'][bi][1]))
                 ctx.check(abs(I1 - Iex) <= tol * float(np.prod(b - a)), 'func_sum:value', 'func_sum = %r, exact integral %r (n=%s box %s)' % (I1, Iex, n, box), case=case)
+                # --- linear in the coefficients: an exact power of two in one core (values ~1e-12 / 1e+18) scales every answer
+                if bi in (0, 2):
+                    for sp in (-40, 60):
+                        As_ = [G * (2.0 ** sp if k_ == (bi % d) else 1.) for k_, G in enumerate(A)]
+                        ys_ = teneva.func_get(X, As_, a, b)
+                        Is_ = teneva.func_sum(As_, a, b)
+                        ctx.check(np.abs(ys_ / 2.0 ** sp - exact).max() <= tol and abs(Is_ / 2.0 ** sp - Iex) <= tol * float(np.prod(b - a)), 'func_get:scale',
+                                  'coefficients times 2^%d: values / integral are not 2^%d times the original ones (n=%s box %s)' % (sp, sp, n, box), case=case)
                 # --- points outside the box receive the fill value (float, int, nan fill values)
                 Xo = X.copy()
                 Xo[::2, 0] = b[0] + 0.5
